@@ -388,7 +388,7 @@ pub fn c16_case(env: &mut Env, rep: &mut Report, case_seed: u64, cfg: &C16Cfg) {
     let mut saw_running = false;
     let mut dups: BTreeSet<String> = BTreeSet::new();
     let mut polls = 0u64;
-    let mut ended_unstored: BTreeMap<String, u64> = BTreeMap::new();
+    let mut ended_unstored: BTreeMap<String, (u64, std::time::Instant)> = BTreeMap::new();
     let mut order: Vec<&str> = STRATEGIES.to_vec();
     rng.shuffle(&mut order);
     let mut next = 0;
@@ -429,12 +429,14 @@ pub fn c16_case(env: &mut Env, rep: &mut Report, case_seed: u64, cfg: &C16Cfg) {
             if obs.stored.contains_key(t) {
                 ended_unstored.remove(t);
             } else if !obs.running.contains(t) {
-                let c = ended_unstored.entry(t.clone()).or_insert(0);
-                *c += 1;
-                if *c > 1500 {
+                // logical condition (ended, nothing left to compute, yet nothing stored) observed on >= 1500
+                // consecutive polls AND for >= 30 s, so that a starved server on a loaded machine is not blamed
+                let c = ended_unstored.entry(t.clone()).or_insert((0, std::time::Instant::now()));
+                c.0 += 1;
+                if c.0 > 1500 && c.1.elapsed() > std::time::Duration::from_secs(30) {
                     rep.violation(
                         "result-never-stored",
-                        format!("{} is not running any more but no result was stored after {} further polls", t, c),
+                        format!("{} is not running any more but no result was stored after {} further polls / {:?}", t, c.0, c.1.elapsed()),
                         replay,
                     );
                     return;
@@ -519,7 +521,7 @@ pub fn c16_case(env: &mut Env, rep: &mut Report, case_seed: u64, cfg: &C16Cfg) {
             rep.violation("unknown-task-running", format!("{:?}", obs.running), replay);
             return;
         }
-        if polls > 20_000 {
+        if polls > 60_000 {
             rep.inconclusive.push(format!("poll bound reached with tasks still running: {:?}", obs.running));
             return;
         }
